@@ -6,7 +6,7 @@ from harness import common, gen_tree, trees, treeimpl, updimpl, findings
 from harness.common import cps, uncps
 from harness.props.c01 import all_texts
 
-BRIDGE = ('Gemato.Bridge.Tree', 'Gemato.Bridge.SrcVerify', 'Gemato.Bridge.SrcLoader', 'Gemato.Bridge.SrcUpdate', 'Gemato.Bridge.SrcText', 'Gemato.Bridge.SrcCodec', 'Gemato.Bridge.SrcProfile', 'Gemato.Bridge.SrcHash')
+BRIDGE = ('Gemato.Bridge.Tree', 'Gemato.Bridge.SrcVerify', 'Gemato.Bridge.SrcLoader', 'Gemato.Bridge.SrcUpdate', 'Gemato.Bridge.SrcText', 'Gemato.Bridge.SrcCodec', 'Gemato.Bridge.SrcProfile', 'Gemato.Bridge.SrcHash', 'Gemato.Bridge.SrcCli')
 PROPS = ['Gemato.Props.C03', 'Gemato.Props.C03b']
 HASHSETS = [['SHA1'], ['MD5', 'SHA256'], ['BLAKE2B', 'SHA512'], ['SHA512']]
 
